@@ -4,8 +4,8 @@
    (hence every width k, multiple of 16 or not, below or above 64 bits), EVERY operand.
    c10_wf n a  :=  a has n digits, each below 2^16  (the representation invariant, itself proved
    to be preserved by every operation: the `c10_wf n (…)` conjuncts). *)
-From Coq Require Import List NArith ZArith Bool.
-From DuneV Require Import Params_gen C10_Model C10_Spec C10_Proofs C10_Proofs2 C10_Proofs3.
+From Coq Require Import List NArith ZArith Bool Ascii.
+From DuneV Require Import Params_gen C10_Model C10_Spec C10_Proofs C10_Proofs2 C10_Proofs3 C10_Proofs4.
 Import ListNotations.
 Local Open Scope N_scope.
 
@@ -362,3 +362,52 @@ Example C10_nonvacuous3 :
   c10_spec_run 2 prog ([7; 65535 + 3 * 65536; 0], []) = ([0; 0; 4294967295], [C10_EvMathError; C10_EvException; C10_EvBool false]).
 Proof. exact C10_nonvacuous3_proof. Qed.
 Print Assumptions C10_nonvacuous3.
+
+(* ======================= round 6: print / operator<< under EVERY stream state ======================= *)
+
+(* EVERY formatting state st of the stream (basefield dec/oct/hex, showbase, uppercase, showpos, adjustfield
+   left/right/internal/none, any fill character, any pending width, any digit grouping of the locale), every digit
+   count n, every value: print (= operator<<; code after proposed fix C10-7) writes the 4n hex digits of the value
+   (c10_print of theorem C10_print, letters upper-cased under std::uppercase) in a field of the pending width --
+   fill characters in front, behind for adjustfield == left --, consumes the width, leaves the stream in decimal and
+   every other flag as it was.  The text with the padding taken off reads back as the value; without padding
+   (width <= 4n, in particular width 0) the text itself does. *)
+Theorem C10_print_state : forall n a st, c10_wf n a ->
+  let body := c10_print_case (c10_s_uppercase st) a in
+  fst (c10_print_ios st a) = c10_spec_field st body /\
+  snd (c10_print_ios st a) = c10_spec_ios_after st /\
+  length body = (4 * n)%nat /\ c10_hexval_ci body = c10_val a /\
+  c10_hexval_ci (c10_spec_unfield st (4 * n) (fst (c10_print_ios st a))) = c10_val a /\
+  length (fst (c10_print_ios st a)) = Nat.max (N.to_nat (c10_s_width st)) (4 * n) /\
+  (c10_s_width st <= 4 * N.of_nat n -> fst (c10_print_ios st a) = body /\ c10_hexval_ci (fst (c10_print_ios st a)) = c10_val a).
+Proof. exact P_print_ios. Qed.
+Print Assumptions C10_print_state.
+
+(* the code AS WRITTEN in /repo c59aad0 (hex digits inserted one by one, no treatment of the width) is the same function on
+   every stream without a pending width -- all combinations of the flags, fill and grouping: C10_print_state applies *)
+Theorem C10_print_state_as_written : forall a st, c10_s_width st = 0 -> c10_print_ios_written st a = c10_print_ios st a.
+Proof. exact P_print_written_width0. Qed.
+Print Assumptions C10_print_state_as_written.
+
+(* REFUTED for the code as written (finding F-C10-7): a pending width is applied to the FIRST hex digit alone, so that with
+   adjustfield == left the padding lands inside the number: bigunsignedint<32>(0xf0001234) on a stream with std::left,
+   fill '0', width 6 prints f000000001234 (all hex digits) which denotes another number; the fixed print reads back *)
+Theorem C10_print_width_refuted : exists n a st, c10_wf n a /\ Forall is_hexchar (fst (c10_print_ios_written st a)) /\
+  c10_hexval_ci (fst (c10_print_ios_written st a)) <> c10_val a /\
+  c10_hexval_ci (fst (c10_print_ios st a)) = c10_val a.
+Proof. exact P_print_written_width_refuted. Qed.
+Print Assumptions C10_print_width_refuted.
+
+(* non-vacuity: bigunsignedint<32>(0x12abcd) on a stream in octal with showbase, uppercase, showpos, std::left, fill '*',
+   width 11 and a locale grouping digits by three: fixed and as-written print; a general `s << std::hex << v` of the
+   stream model with prefix, grouping and padding; the 16-bit digit 0x0001 written with width 4, fill '0' under std::left *)
+Example C10_nonvacuous4 :
+  c10_wf 2 [43981; 18] /\
+  c10_print_ios nv_st [43981; 18] = (["0";"0";"1";"2";"A";"B";"C";"D";"*";"*";"*"]%char, c10_ios_set_width (c10_ios_set_base nv_st C10_dec) 0) /\
+  fst (c10_print_ios_written nv_st [43981; 18]) = ["0";"*";"*";"*";"*";"*";"*";"*";"*";"*";"*";"0";"1";"2";"A";"B";"C";"D"]%char /\
+  c10_print_ios_written (c10_ios_set_width nv_st 0) [43981; 18] = (["0";"0";"1";"2";"A";"B";"C";"D"]%char, c10_ios_set_width (c10_ios_set_base nv_st C10_dec) 0) /\
+  c10_hexval_ci ["0";"0";"1";"2";"A";"B";"C";"D"]%char = c10_val [43981; 18] /\
+  fst (c10_put_hex nv_st 43981) = ["0";"X";"A";",";"B";"C";"D";"*";"*";"*";"*"]%char /\
+  fst (c10_put_hex (c10_ios_set_width refute_st 4) 1) = ["1";"0";"0";"0"]%char.
+Proof. exact C10_nonvacuous4_proof. Qed.
+Print Assumptions C10_nonvacuous4.
